@@ -32,7 +32,7 @@ ASSUMPTIONS = [
     "if the library's resolution entry points are renamed the internal counters are reported as missing and only the user-hook counters decide",
 ]
 REPORT_COUNTERS = ["programs", "second_pass_calls_checked", "second_pass_after_register_checked", "warm_user_hook_calls",
-                   "warm_internal_calls", "entry_paths_nested", "resolve_calls_checked", "watch_points"]
+                   "warm_internal_calls", "entry_paths_nested", "resolve_calls_checked", "watch_points", "introspection_between_calls"]
 
 TOOL = 3
 WATCH = {}
@@ -130,7 +130,21 @@ def check_case(spec, res):
 
     def one_pass(order, check, label):
         outs = {}
-        for i in order:
+        for k_, i in enumerate(order):
+            if check is not None and k_ % 3 == 1:
+                # looking at the function between calls (signature, documentation, repr) is not a change either
+                import inspect
+                f = prog.fn
+                try:
+                    sig = inspect.signature(f)
+                    list(sig.parameters)
+                    str(sig)
+                    f.__doc__
+                    repr(prog.ov)
+                    getattr(f, "__signature__", None)
+                except Exception:  # noqa: BLE001
+                    pass
+                res.count("introspection_between_calls")
             call = spec["calls"][i]
             args = prog.args(call)
             before = _snap(env)
